@@ -79,6 +79,7 @@ def load_registry():
                 if not name:
                     raise SystemExit(f"registry: no fn after //@ line {path}:{i+1}")
                 kv["name"] = name
+                kv["ids"] = [x for x in kv.get("id", "").split(",") if x]
                 kv["file"] = path
                 kv["crate"] = kv.get("crate", crate)
                 kv["stubs"] = stubs
@@ -311,11 +312,20 @@ def run_harness(h, scratch, tier):
 # replay
 # --------------------------------------------------------------------------
 
+def extract_playback_tests(text):
+    """All unit tests printed by `--concrete-playback=print`, as (doc, code).
+    Kani prints one test per failing check AND one per satisfied cover."""
+    tests = []
+    for m in re.finditer(r"```\n(/// Test generated for harness.*?)```", text, re.S):
+        tests.append(m.group(1))
+    return tests
+
+
 def extract_playback_test(text):
-    m = re.search(r"```\n(/// Test generated for harness.*?)```", text, re.S)
-    if not m:
-        m = re.search(r"```(?:rust)?\n(.*?#\[test\].*?)```", text, re.S)
-    return m.group(1) if m else None
+    tests = extract_playback_tests(text)
+    failing = [t for t in tests if "Check for `cover`" not in t]
+    pick = failing or tests
+    return "\n".join(pick) if pick else None
 
 
 def replay_counterexample(h, scratch, prop):
@@ -355,10 +365,11 @@ def run_replay_file(rpath, scratch):
     mt = re.search(r"fn (kani_concrete_playback_\w+)", txt)
     if not (m and mc and mt):
         return None, "replay file lacks header"
-    hfile, crate, tname = m.group(1).strip(), mc.group(1).strip(), mt.group(1)
+    # (the file may hold several tests, one per failing check; the common prefix selects all)
+    hfile, crate, tname = m.group(1).strip(), mc.group(1).strip(), "kani_concrete_playback_"
     body = txt[txt.index("/// Test generated"):] if "/// Test generated" in txt else txt
     env = kani_env(crate)
-    rdir = os.path.join(scratch, "replay_" + tname[-12:])
+    rdir = os.path.join(scratch, "replay_" + mt.group(1)[-12:])
     os.makedirs(rdir, exist_ok=True)
     if crate == "agdb":
         hcopy = os.path.join(rdir, "harness")
@@ -389,14 +400,14 @@ def run_replay_file(rpath, scratch):
             results.append("timeout")
         elif re.search(r"test result: FAILED|panicked at|overflow", out) and "could not compile" not in out:
             results.append("fails")
-        elif re.search(r"test result: ok\. 1 passed", out):
+        elif re.search(r"test result: ok\. [1-9]\d* passed; 0 failed", out):
             results.append("passes")
         else:
             results.append("error")
     note = f"native replay dev={results[0]} release={results[1]}"
     if "fails" in results or "timeout" in results:
         return True, note
-    if results == ["passes", "passes"]:
+    if results[0] == "passes" and results[1] in ("passes", "error"):
         return False, note
     return None, note
 
@@ -509,7 +520,7 @@ def main():
         prop = a.prop
         if not prop:
             ap.error("property id required")
-        selected = [h for h in reg if h["id"] == prop and (tier == "thorough" or h["tier"] == "quick")]
+        selected = [h for h in reg if prop in h["ids"] and (tier == "thorough" or h["tier"] == "quick")]
         if a.harness:
             selected = [h for h in selected if h["name"] in a.harness]
         if not selected:
